@@ -116,6 +116,11 @@ Fixpoint bits_to_bytes_fuel (fuel : nat) (l : list bool) : list byte :=
 Definition bits_to_bytes (l : list bool) : list byte :=
   bits_to_bytes_fuel (S (length l)) l.
 
+(* linear-time reverse for executable paths (stdlib [rev] is quadratic) *)
+Definition fast_rev {A} (l : list A) : list A := rev_append l [].
+Lemma fast_rev_eq {A} (l : list A) : fast_rev l = rev l.
+Proof. unfold fast_rev. symmetry. apply rev_alt. Qed.
+
 Definition opt_bind {A B} (o : option A) (f : A -> option B) : option B :=
   match o with Some a => f a | None => None end.
 
